@@ -19,6 +19,13 @@ METHODS = ["deepcopy", "pickle2", "pickle3", "pickle4", "pickle5"]
 QUICK_METHODS = ["deepcopy", "pickle5"]      # protocol 4 is covered by the fresh-interpreter restore
 
 
+X4 = [[0, 0], [1, 1], [0, 1], [2, 2]]
+HB_OPS = [["fit", [1, 2, 1, 2], [1, 0, 0, 1], X4], ["add_arm", 3, "bin_ge2"], ["add_arm", 3],
+          ["partial_fit", [1, 2], [0, 1], X4[:2]], ["partial_fit", [2, 1], [5, 0], X4[2:]], ["remove_arm", 1]]
+CB_OPS = [["partial_fit", [2, 2], [5, 1], X4[1:3]], ["fit", [2, 2, 2], [5, 0, 2], X4[:3]], ["add_arm", 4, "bin_ge5"],
+          ["partial_fit", [2], [1], X4[:1]]]
+
+
 def meta(tier, seed):
     return {
         "rule": "a case = (combination, labels, state, copy method, continuation); non-trivial iff the state was reached "
@@ -28,7 +35,12 @@ def meta(tier, seed):
                   "every continuation; training and querying the copy leaves the original's outputs unchanged; "
                   "protocol-4 pickles restored in a fresh interpreter give the same outputs as the original in-process",
         "bounds": {"bfs_depth": 2 if tier == "quick" else "3 (int labels), 2 (str labels)", "continuation_depth": 1,
-                   "methods": (QUICK_METHODS if tier == "quick" else METHODS) + ["pickle4 -> fresh interpreter"], "labels": ["int", "str"]},
+                   "methods": (QUICK_METHODS if tier == "quick" else METHODS) + ["pickle4 -> fresh interpreter"], "labels": ["int", "str"],
+                   "binarizer_histories": "Thompson Sampling with / without a binarizer under %s: every history of <= 3 "
+                                          "calls over %d operations (add_arm with a binarizer, non-binary rewards), "
+                                          "every continuation of <= 2 calls over %d operations" % (
+                                              ["none", "rad", "tree"] if tier == "quick" else list(A.NPS),
+                                              len(HB_OPS), len(CB_OPS))},
         "assumptions": ["binarizers are module-level functions of the harness (picklable), as the property states"],
     }
 
@@ -39,6 +51,13 @@ def shards(tier, seed):
         for labels in (("int",) if tier == "quick" else ("int", "str")):
             out.append({"ln": ln, "nn": nn, "labels": labels, "depth": 2 if (tier == "quick" or labels == "str") else 3,
                         "cdepth": 1, "all_methods": tier != "quick", "seed": 13 + seed})
+    # Thompson Sampling whose binarizer is installed or replaced by add_arm: the one hyper-parameter that changes
+    # after construction.  Histories over HB_OPS up to depth 3, continuations over CB_OPS up to depth 2.
+    for ln in ("ts", "tsb"):
+        for nn in (["none", "rad", "tree"] if tier == "quick" else list(A.NPS)):
+            for first in range(len(HB_OPS)):
+                out.append({"kind": "binarizer", "ln": ln, "nn": nn, "labels": "int", "all_methods": tier != "quick",
+                            "first": first, "seed": 13 + seed})
     return A.heavy_first(out)
 
 
@@ -110,7 +129,50 @@ def judge(cfg, hist, cf, method, conts, acc=None, key=None, expected=None):
     return msgs
 
 
+def run_binarizer_shard(shard):
+    import itertools
+    ln, nn = shard["ln"], shard["nn"]
+    cfg = A.config(ln, nn, arms=[1, 2], seed=shard["seed"])
+    if ln == "tsb":
+        cfg["lp"] = ["ThompsonSampling", {"binarizer": "bin_ge1"}]
+    cf = ops.is_context_free(cfg)
+    acc = report.Acc(ID, replay, shard)
+    qs = _queries(cf)
+
+    def fix(op):
+        return [op[0], op[1], op[2], None] if cf and op[0] in ("fit", "partial_fit") else op
+    conts = [[fix(o) for o in c] for k in range(0, 3) for c in itertools.product(CB_OPS, repeat=k)]
+    for depth in range(1, 4):
+        for hist in itertools.product(HB_OPS, repeat=depth):
+            if hist[0] is not HB_OPS[shard["first"]]:
+                continue
+            hist = [fix(o) for o in hist]
+            try:
+                m = original(cfg, hist)
+            except Exception:                                 # noqa: BLE001
+                acc.skip("history rejected by the library (C17 judges rejected calls)")
+                continue
+            if S.knn_short(m):
+                continue
+            acc.state(("binarizer", ln, nn, str(hist)))
+            key = "%s/%s/bin/%s" % (ln, nn, "|".join(map(str, hist)))
+            expected = []
+            for cont in conts:
+                o = original(cfg, hist)
+                e = _run_cont(o, cont)
+                expected.append(e or observe_inplace(o, qs))
+            for method in (METHODS if shard.get("all_methods") else QUICK_METHODS):
+                for cont, msg in judge(cfg, hist, cf, method, conts, acc, key, expected):
+                    acc.violation("%s/%s %s binarizer cont=%s" % (ln, nn, method, "+".join(o[0] for o in cont)),
+                                  {"cfg": cfg, "history": hist, "method": method, "cont": cont}, msg)
+            if depth == 2 and len(acc.samples) < 2:
+                acc.sample({"cfg": cfg, "history": hist, "continuations": len(conts)})
+    return acc.result()
+
+
 def run_shard(shard):
+    if shard.get("kind") == "binarizer":
+        return run_binarizer_shard(shard)
     ln, nn, labels = shard["ln"], shard["nn"], shard["labels"]
     cfg = A.config(ln, nn, arms=S.initial_arms(labels), seed=shard["seed"])
     cf = ops.is_context_free(cfg)
